@@ -154,6 +154,14 @@ Theorem C12_mass_write_through_view : forall s i j x s' v,
 Proof. exact view_mass_write_visible. Qed.
 Print Assumptions C12_mass_write_through_view.
 
+(* MultiStream.from_streams: the streams handed in ARE live sub-streams from the start (rows aliased, one
+   shared thermal-condition object, caches consistent), so every history theorem above applies to them *)
+Theorem C12_from_streams_views_live : forall n mw ss s,
+  from_streams n mw ss = Ok s -> Forall (fun x => length (ss_flow x) = n) ss ->
+  wf s /\ live_inv s /\ mass_inv s /\ (proper_state s -> good s).
+Proof. exact from_streams_live. Qed.
+Print Assumptions C12_from_streams_views_live.
+
 (* a sub-stream stays the parent's cached (hence live) sub-stream across EVERY operation unless the stream
    collapsed to a single phase or no longer has a row for its label *)
 Theorem C12_view_stays_cached : forall s o s' i v,
@@ -226,6 +234,20 @@ Example C12_ex_view_live_mass :
   | Err _ => False
   end.
 Proof. split; [intros v []|vm_compute; repeat split; reflexivity]. Qed.
+
+(* three streams with their own T, P put together; T written through the parent, P through the last one *)
+Example C12_ex_from_streams :
+  match from_streams 3 [16; 32; 8]
+          [mkss Pl [2; 0; 0] 300 101325 true; mkss Pg [0; 1; 0] 360 200000 false; mkss PL [0; 0; 1] 280 3 false] with
+  | Ok s0 => proper_state s0 /\
+      match run s0 [OSetT 321; OViewSetP 2 5; OSetPhases [Pl; Pg; PL; Ps] false; OViewSetT 1 77; OWriteView 1 0 4] with
+      | Ok s => map (fun v => tc_get (tcs s) (vtc v)) (views s) = [(77, 5); (77, 5); (77, 5)] /\
+                T_of s = 77 /\ P_of s = 5 /\ flow s Pg = [4; 1; 0] /\ map vin (views s) = [true; true; true]
+      | Err _ => False
+      end
+  | Err _ => False
+  end.
+Proof. vm_compute. repeat split; try reflexivity; discriminate. Qed.
 
 Example C12_ex_covers : covers ex0 (pset_of [PL; Pg]) /\ ~ covers ex0 (pset_of [Pg; Ps]).
 Proof.
